@@ -91,3 +91,28 @@ theorem List.all_append' {α} (p : α → Bool) (a b : List α) :
     (a ++ b).all p = (a.all p && b.all p) := by simp
 
 end PS
+
+namespace PS.AList
+variable {κ ν : Type} [DecidableEq κ]
+
+theorem lookup_of_mem_nodup {k : κ} {v : ν} {d : AList κ ν} (hnd : (keys d).Nodup)
+    (h : (k, v) ∈ d) : lookup k d = some v := by
+  induction d with
+  | nil => cases h
+  | cons p r ih =>
+    obtain ⟨k', v'⟩ := p
+    simp only [keys, List.map_cons, List.nodup_cons] at hnd
+    rcases List.mem_cons.mp h with h | h
+    · cases h; simp [lookup]
+    · have hne : k' ≠ k := by
+        intro hk; subst hk
+        exact hnd.1 (List.mem_map.mpr ⟨(k', v), h, rfl⟩)
+      simp only [lookup, hne, if_false]
+      exact ih hnd.2 h
+
+theorem contains_iff_lookup {k : κ} {d : AList κ ν} :
+    contains k d = true ↔ ∃ v, lookup k d = some v := by
+  unfold contains
+  cases lookup k d <;> simp
+
+end PS.AList
